@@ -4,6 +4,9 @@ import RP.Model.Pgcopy
 `cuts <blueprint|metric|lookup|transitions> <aux> <n> <row values…> <m> <k_1 … k_m>` →
 for every `k_i` what the model loader makes of the first `k_i` bytes of the saved file:
 `fail`, `ok` (= the content of the complete file) or `short:<rows>` (loaded, but different).
+`comp <enc|bp> <target> <np> <blueprint rows…> (<n> <lookup rows…>)×4 <m> <k…>` → the composite loaders
+(`Encoder::load` = the four street lookups merged; `Blueprint::load` = `Profile::load` + `Encoder::load`) with the
+blueprint file (target 0) or street `target-1`'s lookup file cut at `k`: `fail` / `ok` / `short`.
 `aux` is `n_children(street)` for transitions (0 = river: `Decomp::load` panics on `n_children`). -/
 open RP.Driver RP.Pgcopy
 
@@ -49,8 +52,56 @@ def cutsOf (rest : List Nat) : Option (List Nat) :=
   | m :: ks => if ks.length = m then some ks else none
   | [] => none
 
+/-- `<n> <2n values>` repeated four times -/
+def fourLookups : Nat → List Nat → Option (List (List LRow) × List Nat)
+  | 0, rest => some ([], rest)
+  | j+1, n :: vals =>
+    match chunk 2 n vals with
+    | some (rs, rest) =>
+      match rs.mapM lrow, fourLookups j rest with
+      | some rows, some (more, rest') => some (rows :: more, rest')
+      | _, _ => none
+    | none => none
+  | _, [] => none
+
+def verdict3 {α : Type} [BEq α] (complete : Option α) (got : Option α) : String :=
+  match got with
+  | none => "fail"
+  | some t => if some t == complete then "ok" else "short"
+
+/-- composite loaders: `target` 0 = the blueprint file, 1..4 = the lookup file of street 0..3 -/
+def runComp (withProfile : Bool) (target : Nat) (prows : List PRow) (lookups : List (List LRow)) (ks : List Nat) : String :=
+  let pfile := saveBlueprint prows
+  let lfiles := lookups.map saveLookup
+  let cutFiles (k : Nat) : Bytes × List Bytes :=
+    if target = 0 then (pfile.take k, lfiles)
+    else (pfile, (lfiles.zipIdx).map (fun fi => if fi.2 + 1 = target then fi.1.take k else fi.1))
+  if withProfile then
+    let complete := loadBlueprintAll pfile lfiles
+    joinSp (ks.map (fun k => let c := cutFiles k; verdict3 complete (loadBlueprintAll c.1 c.2)))
+  else
+    let complete := loadEncoder lfiles
+    joinSp (ks.map (fun k => verdict3 complete (loadEncoder (cutFiles k).2)))
+
 def handle (line : String) : String :=
   match words line with
+  | "comp" :: kind :: target :: np :: rest =>
+    match target.toNat?, np.toNat?, parseNats rest with
+    | some target, some np, some vals =>
+      match chunk 6 np vals with
+      | some (prs, rest) =>
+        match prs.mapM prow, fourLookups 4 rest with
+        | some prows, some (lookups, rest') =>
+          match cutsOf rest' with
+          | some ks =>
+            if target > 4 then "bad-op"
+            else if kind = "enc" then (if target = 0 then "bad-op" else runComp false target prows lookups ks)
+            else if kind = "bp" then runComp true target prows lookups ks
+            else "bad-op"
+          | none => "bad-op"
+        | _, _ => "bad-op"
+      | none => "bad-op"
+    | _, _, _ => "bad-op"
   | "cuts" :: table :: aux :: n :: rest =>
     match aux.toNat?, n.toNat?, parseNats rest with
     | some aux, some n, some vals =>
